@@ -22,8 +22,8 @@ ASSUMPTIONS = ['the independent walk (lokiverif.irtree.walk over dataclass field
                'symbol-table contents are compared through lokiverif.irdump.dump_type (dtype name, kind, shape, intent, ... as text)',
                'generator flags for listed known findings are off in the main stream (PRINT statements, real(x, 8) conversions, '
                'derived-type names in ONLY lists of resolved imports, resolved procedure imports compared by ==); their triggers live in replays/C18']
-SHARDS = {'quick': 8, 'thorough': 16}
-BUDGET = {'quick': 70, 'thorough': 1200}
+SHARDS = {'quick': 12, 'thorough': 16}
+BUDGET = {'quick': 55, 'thorough': 1200}
 
 _FLAGS = None
 
@@ -256,6 +256,9 @@ def roundtrip_checks(ctx, case, u, u2, label):
             if a.startswith('anc'):
                 continue        # resolved through the parent, which is not pickled
             ta, tb = s1['types'][i], s2['types'][i]
+            if inv.ancestors:
+                # names of the (unpickled) parent inside kind / shape / initial come back as deferred symbols
+                ta, tb = U.loose_type(ta), U.loose_type(tb)
             if isinstance(ta, dict) and ta.get('is_intrinsic'):
                 continue        # intrinsic procedure names are re-attached to the closest scope by design
             if a.startswith('own') and b == 'none':
@@ -297,6 +300,8 @@ def roundtrip_checks(ctx, case, u, u2, label):
             fail(f'{pre}:not-equal:{comp}', f'unpickled != original (also with ProcedureType links ignored); first difference: {fine}')
     # 5. symbol-table contents (entries of intrinsic procedure names are created wherever such a name is re-attached)
     t1, t2 = _no_intrinsics(s1['symtab']), _no_intrinsics(s2['symtab'])
+    if inv.ancestors:
+        t1, t2 = U.loose_type(t1), U.loose_type(t2)
     if t1 != t2 and not reported:
         from ..irdump import first_difference
         d = first_difference(t1, t2) or ''
@@ -331,11 +336,15 @@ def check_case(case, ctx):
         return
     ctx.count(f'pickle-kB:{min(len(blob) // 20000 * 20, 200)}+')
     roundtrip_checks(ctx, case, u, u2, 'rt1')
-    # original untouched
+    # original untouched (and still picklable)
     after = U.snapshot(u, inv=attr_filter(U.Inventory(u)))
     d = U.snapshot_diff(before, after)
     if d:
         ctx.fail(f'C18:original-changed:{d[0]}', case, f'pickling changed the original: {d[0]}: {d[1]}')
+    try:
+        pickle.dumps(u)
+    except Exception as e:  # noqa
+        ctx.fail(f'C18:original-changed:second-dumps-raises:{exc_bucket(e)}', case, f'the original cannot be pickled a second time: {e!r}')
     # second round trip
     try:
         u3 = pickle.loads(pickle.dumps(u2))
